@@ -103,10 +103,13 @@ Definition res_thr (p : fl) (cap : Z) : Z := ftrunc (fmul (fmul p f001) (f_of_in
 (* ------------------------------------------------------------------------------------ *)
 (* Inputs *)
 
-(* a pod as the harness creates it: [pfilt] bit0 = evictor Filter accepts, bit1 = matches the
-   configured pod selector, bit2 = namespace not excluded; [pevok] = result of Evictor.Evict *)
+(* a pod as the harness creates it: identity = (namespace [pns], name [pid]); namespaces 0 and 1
+   are evictable, 2 and 3 are on the EvictableNamespaces.Exclude list; [pfilt] bit0 = evictor
+   Filter accepts, bit1 = matches the configured pod selector; [pevok] = result of Evictor.Evict *)
 Record pod := mkPod {
-  pid : Z; pprio : Z; pmet : bool; pcpu : Z; pmem : Z; pfilt : Z; pevok : bool }.
+  pid : Z; pns : Z; pprio : Z; pmet : bool; pcpu : Z; pmem : Z; pfilt : Z; pevok : bool }.
+Notation pkeyT := (Z * Z)%type.
+Definition pkey (p : pod) : pkeyT := (pns p, pid p).
 
 Record nstat := mkNstat { ncapc : Z; ncapm : Z; ncapp : Z; nmember : bool }.
 
@@ -159,7 +162,7 @@ Fixpoint insert_by {A} (leb : A -> A -> bool) (x : A) (l : list A) : list A :=
 Definition sort_by {A} (leb : A -> A -> bool) (l : list A) : list A :=
   fold_right (insert_by leb) [] l.
 
-Definition pfilt_ok (p : pod) : bool := pfilt p =? 7.
+Definition pfilt_ok (p : pod) : bool := (pfilt p =? 3) && (0 <=? pns p) && (pns p <? 2).
 
 (* ------------------------------------------------------------------------------------ *)
 (* The usage / threshold table of one round (getNodeUsage, getNodeThresholds, classifyNodes) *)
@@ -355,7 +358,7 @@ Fixpoint uset (x : Z) (v : vec) (m : umap) : umap :=
   end.
 Notation ustate := (umap * vec)%type.
 
-Notation ev := (Z * Z)%type.       (* Evict call: node, pod *)
+Notation ev := (Z * pkeyT)%type.       (* Evict call: node, pod (namespace, name) *)
 
 Definition r_use (prod : bool) (r : row) : vec := if prod then rpuse r else ruse r.
 Definition r_high (prod : bool) (r : row) : vec := if prod then rphigh r else rhigh r.
@@ -390,7 +393,7 @@ Fixpoint evict_pods (c : cfg) (prod : bool) (r : row) (ps : list pod) (st : usta
       evict_pods c prod r t (if pmet p then charge c (rid r) p st else st) dm
     else
       let '(evs, st', dm') := evict_pods c prod r t (apply_ev c (rid r) p st) dm in
-      ((rid r, pid p) :: evs, st', dm')
+      ((rid r, pkey p) :: evs, st', dm')
   end.
 
 (* podFitsAnyNodeWithThreshold: the first target (in the given order) that stays within its
